@@ -169,6 +169,7 @@ fn check(c: &Case) -> CaseResult {
         .label(f.non_eliding, "non-eliding")
         .label(f.empty_meta, "metadata-length-0")
         .label(c.l.zero_counters != 0, "counters-unknown-0")
+        .label(f.prefix_overlap, "same-offset-different-length")
         .label(true, super::c01::codec_label(c.l.internal))
         .label(c.open % 3 == 2, "open-async"))
 }
@@ -293,7 +294,7 @@ pub fn run(ctx: &Ctx) {
         ctx.rec.infra("repository fixtures not found under <repo>/test");
     }
     run_list(ctx, "repository-fixtures", &fx, check_fixture);
-    for c in ["depth-2", "depth-3", "run>1", "shared-offset", "non-monotonic-offset", "sections-permuted", "gaps", "non-eliding", "metadata-length-0", "counters-unknown-0", "internal-brotli", "open-async"] {
+    for c in ["depth-2", "depth-3", "run>1", "shared-offset", "non-monotonic-offset", "sections-permuted", "gaps", "non-eliding", "metadata-length-0", "counters-unknown-0", "same-offset-different-length", "internal-brotli", "open-async"] {
         ctx.rec.floor(c, 20);
     }
 }
